@@ -263,7 +263,7 @@ def check_proofs(pid, thorough):
 
 # ------------------------------------------------------------------------------------ correspondence
 
-def run_cases(component, lines, harness=None, timeout=600, parallel=1):
+def run_cases(component, lines, harness=None, timeout=600, parallel=1, extra_env=None):
     """lines: list of '<id>\\t<input>'. returns list of verdict dicts. parallel > 1 spreads the cases over several
     harness processes (each case is independent)."""
     harness = harness or HARNESS
@@ -272,18 +272,51 @@ def run_cases(component, lines, harness=None, timeout=600, parallel=1):
     procs = []
     for ch in chunks:
         pr = subprocess.Popen([harness, "exec", component], stdin=subprocess.PIPE, stdout=subprocess.PIPE, stderr=subprocess.PIPE,
-                              text=True, env=dict(os.environ, GOMEMLIMIT="6GiB"))
+                              text=True, env=dict(os.environ, GOMEMLIMIT="6GiB", **(extra_env or {})))
         procs.append((pr, "\n".join(ch) + "\n"))
     import threading
     results = [None] * len(procs)
 
     def feed(i, pr, data):
-        try:
-            results[i] = pr.communicate(data, timeout=timeout) + (pr.returncode,)
-        except subprocess.TimeoutExpired:
-            pr.kill()
-            o, e = pr.communicate()
-            results[i] = (o, (e or "") + "\n[verif] harness timed out after %ss" % timeout, -9)
+        """feed one chunk; if the harness process dies (a panic in a goroutine of the code under test cannot be recovered),
+        the case it died on becomes an observation `panic harness-process-died …` and the rest of the chunk is re-run"""
+        remaining = [l for l in data.split("\n") if l]
+        outs, errs, rc_final = [], "", 0
+        first = True
+        deadline = time.time() + timeout
+        while remaining:
+            if not first:
+                pr = subprocess.Popen([harness, "exec", component], stdin=subprocess.PIPE, stdout=subprocess.PIPE, stderr=subprocess.PIPE,
+                                      text=True, env=dict(os.environ, GOMEMLIMIT="6GiB", **(extra_env or {})))
+            first = False
+            try:
+                o, e = pr.communicate("\n".join(remaining) + "\n", timeout=max(5, deadline - time.time()))
+                rc = pr.returncode
+            except subprocess.TimeoutExpired:
+                pr.kill()
+                o, e = pr.communicate()
+                rc = -9
+                e = (e or "") + "\n[verif] harness timed out after %ss" % timeout
+            got = [l for l in (o or "").split("\n") if l.count("\t") == 2]
+            outs += got
+            done_ids = set(l.split("\t")[0] for l in got)
+            remaining = [l for l in remaining if l.split("\t")[0] not in done_ids]
+            if rc == 0 or not remaining:
+                if rc != 0:
+                    errs, rc_final = e, rc
+                break
+            # the first unprocessed case killed (or hung) the process
+            victim = remaining.pop(0)
+            tail = [x for x in (e or "").strip().split("\n") if x.strip()]
+            if "DATA RACE" in (e or ""):
+                stack = [x.strip() for x in e.split("\n") if "/repo/" in x or "firebolt/" in x][:6]
+                tail = ["DATA RACE " + " | ".join(stack)]
+            why = "timeout" if rc == -9 else (next((x for x in tail if x.startswith("panic:") or x.startswith("fatal error:") or x.startswith("DATA RACE")), tail[-1] if tail else "exit %s" % rc))
+            outs.append("%s\tpanic harness-process-died %s" % (victim, why.replace("\t", " ")[:300]))
+            if rc == -9:
+                errs, rc_final = e, rc
+                break
+        results[i] = ("\n".join(outs) + "\n", errs, rc_final)
     ths = [threading.Thread(target=feed, args=(i, pr, data)) for i, (pr, data) in enumerate(procs)]
     for t in ths:
         t.start()
@@ -446,7 +479,8 @@ def check(pid, tier):
         B = 2000
         for i in range(0, len(lines), B):
             vs, crashed, derr = run_cases(comp, lines[i:i + B], harness=harness, timeout=prop.get("case_timeout", 1800 if thorough else 150),
-                                          parallel=prop.get("parallel", 1))
+                                          parallel=prop.get("parallel", 1),
+                                          extra_env={"GORACE": "halt_on_error=1"} if harness == HARNESS_RACE else None)
             allv += vs
             if crashed:
                 stats["crashes"].append(dict(component=comp, detail=crashed))
@@ -483,6 +517,18 @@ def check(pid, tier):
                 run_component(comp, nt if thorough else nq, seed + prop.get("seed_offset", 0), "main")
             except Exception as e:  # harness crash etc.
                 stats["crashes"].append(dict(component=comp, detail=repr(e)[:2000]))
+        # the same component under the Go race detector (C05: data races are searched for on the real code)
+        if prop.get("race"):
+            okr, outr = build_harness(race=True)
+            if not okr:
+                stats["crashes"].append(dict(component="race-build", detail=outr[-1500:]))
+            else:
+                for comp, nq, nt in prop["components"]:
+                    try:
+                        run_component(comp, (nt // 4) if thorough else prop.get("race_quick", 60), seed + 7717, "race", harness=HARNESS_RACE)
+                        notes.append("race detector: %s ran under -race" % comp)
+                    except Exception as e:
+                        stats["crashes"].append(dict(component=comp + "(race)", detail=repr(e)[:2000]))
         # extra runtime checks (timing harnesses etc.)
         for extra in prop.get("extras", []):
             try:
